@@ -16,7 +16,7 @@ cs_add(ContinuableSink *cs, const void *data, const size_t n)
     if (b == NULL) {
         return -ENOMEM;
     }
-    const size_t rest = byte_buffer_rest(b);
+    const size_t rest = byte_buffer_avail(b);
     const size_t tosave = n < rest ? n : rest;
     byte_buffer_add(b, data, tosave);
     return tosave < n ? -ENOMEM : 0;
